@@ -309,6 +309,8 @@ def _gen_section(
             bits = max(bits, bits + 64 * 8)
     if r.chance(1, 6):
         lines.append("@assert 2 * 2 == 4")  # (_offset_ makes pydsdl expand the bit length set numerically: seconds per type)
+    if p.docs and r.chance(1, 10):
+        lines.append("@print 2 + 2")  # valid, rare: the front end hands the value to a print handler (stdout is a data channel of the listing modes)
     return lines, deps, bits
 
 
